@@ -614,6 +614,25 @@ func (r *rig) conserved(clientsClosed bool) expectFn {
 	}
 }
 
+// requestsEnded is the expectation while upstream handlers are still parked: every client has its answer
+// or is gone, so every request has ended and must have given back what it held - whatever the upstreams
+// do later. Connection terms are left out (a parked handler cannot notice that MOSN closed its connection).
+func (r *rig) requestsEnded() expectFn {
+	full := r.conserved(false)
+	return func(o obs) (bool, string, string) {
+		live := int64(0)
+		for i := range r.hosts { // neutralise the connection terms
+			o.HostConnAct[i] = o.Live[i]
+			live += o.Live[i]
+		}
+		o.CluConnAct = live
+		if r.su.Proto == "tcp" {
+			return true, "", ""
+		}
+		return full(o)
+	}
+}
+
 const (
 	settleReads  = 3                       // consecutive equal reads that count as quiescent when the expectation holds
 	settleGap    = 3 * time.Millisecond    //
